@@ -33,14 +33,22 @@ structure Payload where
   fill : Nat
 deriving DecidableEq, Repr, Inhabited
 
-/-- `ImmediateDialError` (the variants that matter). -/
+/-- `ImmediateDialError` (the variants `TransportManagerHandle::dial` produces, `other` for the
+rest). -/
 inductive DialErr
-  | noAddress | alreadyConnected | clogged | other
+  | noAddress | alreadyConnected | clogged | triedToDialSelf | taskClosed | other
 deriving DecidableEq, Repr
 
-/-- `SubstreamError` (the variants that matter). -/
+/-- `SubstreamError`, by the shapes `impl From<SubstreamError> for RejectReason` and
+`on_substream_open_failure` distinguish: `notConnected` = `IoError(NotConnected)`,
+`yamuxNotConnected` = `YamuxError(Io(e), _)` with `e.kind() == NotConnected`,
+`negotiationNotConnected` = `NegotiationError(IoError(NotConnected))`, `msNotConnected` =
+`NegotiationError(MultistreamSelectError(ProtocolError(IoError(e))))` with `e.kind() == NotConnected`,
+`unsupported` = `NegotiationError(MultistreamSelectError(Failed))`; `io` / `yamux` / `negotiation`
+are the same shapes with any other content. -/
 inductive SubErr
   | closed | clogged | noPeer | readFailure | negotiationTimeout | notConnected | unsupported | other
+  | yamuxNotConnected | negotiationNotConnected | msNotConnected | io | yamux | negotiation | writeFailure
 deriving DecidableEq, Repr
 
 inductive RejectReason
@@ -53,6 +61,9 @@ deriving DecidableEq, Repr
 /-- `impl From<SubstreamError> for RejectReason`. -/
 def RejectReason.ofSubErr : SubErr → RejectReason
   | .notConnected => .connectionClosed
+  | .yamuxNotConnected => .connectionClosed
+  | .negotiationNotConnected => .connectionClosed
+  | .msNotConnected => .connectionClosed
   | e => .substreamOpenError e
 
 inductive RrError
